@@ -191,6 +191,42 @@ func c08Case(t *core.T, big bool) {
 		bigSpendBlocks = spendBlocks
 		wd.Logf("(%d blocks each spending 100 of those coins)", spendBlocks)
 	}
+	// when the wallet to be removed holds a withdrawable staking or binding deposit, the last block before
+	// the removal withdraws it: a reorganisation during the removal then has to give the deposit back
+	// (history row and all) to a wallet that is half gone
+	withdrawalMined := false
+	if !big {
+		if !wd.Settle() {
+			t.Inconclusive("handler not idle")
+			return
+		}
+		if vw, err := sim.ViewOfChain(wd.N.BestChain()); err == nil {
+			for _, o := range vw.SortedOuts() {
+				if o.Spent || !o.HasHash || !victim.Owned[o.Hash] || o.Class == sim.ClassStd || !vw.Mature(o) || o.Value < 100000 || len(victim.Hashes) == 0 {
+					continue
+				}
+				seq := uint64(wire.MaxTxInSequenceNum)
+				if o.Class == sim.ClassStaking {
+					seq = o.Frozen + 1
+				} else if o.Maturity() != 0 {
+					seq = o.Maturity()
+				}
+				wtx := sim.Spend([]wire.OutPoint{o.OP}, []uint64{seq}, []*wire.TxOut{wire.NewTxOut(o.Value-1000, sim.P2WSH(victim.Hashes[0]))}, t.R.Uint64()|1)
+				b, err := wd.BuildBlock(wd.N.Tip(), []*wire.MsgTx{wtx}, 0)
+				if err != nil || len(b.Msg.Transactions) < 2 {
+					break
+				}
+				if err := wd.N.Extend(b); err != nil {
+					t.Fatalf("extend (withdrawal block): %v", err)
+				}
+				wd.Logf("extend %s (withdraws deposit %v of the wallet to be removed)", wd.BlockDesc(b), o.OP)
+				wd.W.Deliver(b)
+				withdrawalMined = true
+				t.Count("cases_with_a_deposit_of_the_victim_withdrawn_just_before_the_removal", 1)
+				break
+			}
+		}
+	}
 	// a few pending transactions (some touching the victim, some shared)
 	if !wd.Settle() {
 		t.Inconclusive("handler not idle")
@@ -305,7 +341,7 @@ func c08Case(t *core.T, big bool) {
 		select {
 		case <-parked:
 			wd.Keys = allKeys
-			if t.R.Bool() && wd.N.Height() > 4 {
+			if (withdrawalMined || t.R.Bool()) && wd.N.Height() > 4 {
 				// a reorganisation that takes blocks with the victim's spends and payments off the chain
 				d := t.R.Range(1, 3)
 				forkedAfterPending = true
